@@ -5,6 +5,8 @@
 # and runs the checks against that worktree (VERIF_REPO); each must exit 1 with a VIOLATION line.  Evidence and
 # replays of these runs go to /var/tmp/verif_mut/results, never to /verif/evidence.  The worktree is removed.
 P=$(readlink -f "$1"); shift
+# mutant runs share one scratch directory (warm build cache): serialise them
+exec 9>/var/tmp/verif_mut.lock; flock 9
 WT=/var/tmp/mutant_wt_$$
 git -C /repo worktree prune
 git -C /repo worktree add --detach "$WT" HEAD >/dev/null 2>&1 || { echo "mutant: cannot create worktree"; exit 2; }
